@@ -348,6 +348,8 @@ def check(run, F, tier):
         if not m:
             continue
         kind = m.group(1)
+        if not f.get("pub"):
+            continue          # a private `Section::parse` helper of a packet parser is judged inside the parser that uses it
         if not any(c.endswith(PP) for c in reach_calls(F, f)):
             continue
         # closures and private helpers are followed (also through function pointers); validators stay visible as calls
